@@ -317,6 +317,9 @@ class MethodNotAllowed(BadRequest):
             self.detail = '%s Allowed methods: %r' % (self.detail,
                                                       method_list)
         super(MethodNotAllowed, self).__init__(*args, **kwargs)
+        if self.allowed_methods:
+            # RFC 7231 6.5.5: a 405 response must carry an Allow header
+            self.headers['Allow'] = ', '.join(sorted(self.allowed_methods))
 
 
 class NotAcceptable(BadRequest):
